@@ -14,6 +14,7 @@ CONSTANTS
   HashMode = "ordered"
   SFSMode = "callers_list"
   VectorMode = "copies"
+  MaskMode = "setter"
   KernelMode = "stateless"
   MaxTable = 60
 SPECIFICATION Spec
